@@ -1,0 +1,84 @@
+//go:build verif
+
+package mat
+
+// Contracts for the deductive checker in /verif (comment-only; compiled only under the verif tag).
+//
+// Module elements E are bound to an abstract abelian group with a scalar action ("group"): g$add, g$zero,
+// g$smul(s, x). Scalars stay abstract values.
+
+// well-formed matrices (the representation invariant every constructor establishes)
+//@ pure func wfM(m *Matrix) bool = m != nil && m.m > 0 && m.n > 0 && len(m.v) == m.m * m.n
+//@ pure func wfMV(m *ModuleValuedMatrix) bool = m != nil && m.m > 0 && m.n > 0 && len(m.v) == m.m * m.n
+
+// lact(A, X, p, c, i, j, k) = sum_{t<k} [A[i*p+t]] X[t*c+j]  -- partial sum of entry (i,j) of the left action,
+// accumulated in the order the code accumulates it.
+//@ ghost func lact(A []V, X []V, p int, c int, i int, j int, k int) V
+//@ theory matact
+//@ axiom Lact0: forall A []V, X []V, p Int, c Int, i Int, j Int :: lact(A, X, p, c, i, j, 0) == gzero()
+//@ axiom LactS: forall A []V, X []V, p Int, c Int, i Int, j Int, k Int :: k > 0 ==> lact(A, X, p, c, i, j, k) == gadd(lact(A, X, p, c, i, j, k-1), gsmul(A[i*p + (k-1)], X[(k-1)*c + j]))
+//@ end
+
+//@ func (*MatrixGroupElementTrait).idx
+//@   property C05, C20
+//@   purefn
+//@   ensures result == row*m.n + col
+
+//@ func (*Matrix).rows
+//@   property C05, C20
+//@   purefn
+//@   ensures result == m.m
+//@ func (*Matrix).cols
+//@   property C05, C20
+//@   purefn
+//@   ensures result == m.n
+//@ func (*Matrix).data
+//@   property C05, C20
+//@   purefn
+//@   ensures result == m.v
+//@ func (*ModuleValuedMatrix).rows
+//@   property C05, C20
+//@   purefn
+//@   ensures result == m.m
+//@ func (*ModuleValuedMatrix).cols
+//@   property C05, C20
+//@   purefn
+//@   ensures result == m.n
+//@ func (*ModuleValuedMatrix).data
+//@   property C05, C20
+//@   purefn
+//@   ensures result == m.v
+
+//@ func NewModuleValuedMatrixModule
+//@   property C05, C20
+//@   ensures (err == nil) == (rows != 0 && cols != 0 && module != nil)
+//@   ensures err == nil ==> result != nil && result.rows == rows && result.cols == cols && result.baseStructure == module
+
+// Trusted: generic constructor that goes through the wrapper type parameter (W(&matrix).init), which the
+// generator cannot resolve statically.
+//@ func (*MatrixGroupTrait).NewRowMajor
+//@   assumed
+//@   ensures (err == nil) == (len(elements) == mm.rows * mm.cols)
+//@   ensures err == nil ==> result != nil && result.m == mm.rows && result.n == mm.cols && len(result.v) == len(elements)
+//@   ensures err == nil ==> forall t int :: 0 <= t && t < len(elements) ==> result.v[t] == elements[t]
+
+//@ func LeftAction
+//@   property C05, C20
+//@   bind E group, FiniteModule groupS
+//@   uses matact
+//@   nopanic
+//@   requires actor != nil ==> wfM(actor)
+//@   requires x != nil ==> wfMV(x) && x.Module().baseStructure != nil
+//@   ensures (actor == nil || x == nil) ==> err != nil
+//@   ensures actor != nil && x != nil ==> ((err == nil) == (actor.n == x.m))
+//@   ensures err == nil ==> result != nil && result.m == actor.m && result.n == x.n && len(result.v) == actor.m * x.n
+//@   ensures err == nil ==> forall i, j int :: 0 <= i && i < actor.m && 0 <= j && j < x.n ==> result.v[i*x.n + j] == lact(actor.v, x.v, actor.n, x.n, i, j, actor.n)
+//@   loop range(actor.m)
+//@     invariant len(elements) == actor.m * x.n
+//@     invariant forall r, c int :: 0 <= r && r < i && 0 <= c && c < x.n ==> elements[r*x.n + c] == lact(actor.v, x.v, actor.n, x.n, r, c, actor.n)
+//@   loop range(x.cols())
+//@     invariant len(elements) == actor.m * x.n
+//@     invariant forall r, c int :: 0 <= r && r < i && 0 <= c && c < x.n ==> elements[r*x.n + c] == lact(actor.v, x.v, actor.n, x.n, r, c, actor.n)
+//@     invariant forall c int :: 0 <= c && c < j ==> elements[i*x.n + c] == lact(actor.v, x.v, actor.n, x.n, i, c, actor.n)
+//@   loop range(actor.n)
+//@     invariant sum == lact(actor.v, x.v, actor.n, x.n, i, j, k)
